@@ -89,6 +89,12 @@ def main(tier, only=None):
                 shapes.append(('hx_filters', [policy, kinds, ci], 'filters/p%d/%s/c%d' % (policy, '-'.join(KN[k] for k in s), ci)))
     for ci in range(9):
         shapes.append(('hx_class_names', [ci, 0], 'class_names/%d' % ci))
+    # the logging macros with the level pre-check (LOG_LEVEL / detail::discard_by_level), log given by id and by name
+    for policy in (0, 1, 2):
+        for sq in [(0,), (1,), (2,), (3,), (4,), (1, 2), (2, 1), (3, 1), (1, 1), (2, 3), (4, 2)]:
+            kinds = sum(k << (4 * i) for i, k in enumerate(sq))
+            for how in ((0, 1) if policy == 2 or tier != 'quick' else (0,)):
+                shapes.append(('hx_macros', [policy, kinds, how], 'macros/p%d/%s/%s' % (policy, '-'.join(KN[k] if k else 'none' for k in sq), 'id' if how == 0 else 'name')))
     sites = [(1, 0, 0, 0, 0, 0), (0, 0, 2, 0, 0, 0), (3, 0, 0, 4, 0, 0), (1, 2, 2, 1, 3, 4), (4, 4, 1, 0, 0, 2), (0, 0, 0, 0, 0, 0), (2, 1, 4, 3, 1, 2)]
     if tier != 'quick':
         sites += [tuple((a + i) % 5 for i in range(6)) for a in range(5)] + [(3, 3, 3, 3, 3, 3), (4, 4, 4, 4, 4, 4)]
